@@ -438,6 +438,23 @@ def asm_all():
             if not m or not adds:
                 die(fname + ": row loop not recognised")
             P("Definition rowloop_%s_%s : list Z * Z := ([%s], %d)." % (base, isa, "; ".join(a or "1" for a in adds), 1 if m.group(1).startswith("dec") else int(m.group(2))))
+    # h2v2 merged upsampling = two calls of the h2v1 routine: which luma/output row each call handles, in call order
+    for isa in ("sse2", "avx2"):
+        fname = "jdmrgext-%s.asm" % isa
+        txt = re.sub(r";.*", "", rd("simd/x86_64/" + fname))
+        i1 = txt.find("EXTN(jsimd_h2v2_merged_upsample_%s):" % isa)
+        if i1 < 0:
+            die(fname + ": jsimd_h2v2_merged_upsample entry not found")
+        seg = txt[i1:]
+        calls = [m.start() for m in re.finditer(r"call\s+EXTN\(jsimd_h2v1_merged_upsample_%s\)" % isa, seg)]
+        if len(calls) != 2 or re.search(r"\.rowloop|\bjn?[a-z]+\s+\.", seg[:calls[1]]):
+            die(fname + ": h2v2 merged upsampler is no longer two straight-line calls of the h2v1 routine (row order unknown)")
+        if not re.search(r"mov\s+rdi,\s*r13", seg[:calls[0]]) or re.search(r"add\s+r[sd]i,\s*byte\s+SIZEOF_JSAMPROW", seg[:calls[0]]):
+            die(fname + ": first h2v1 call does not use output_buf[0] / luma row 0")
+        mid = seg[calls[0]:calls[1]]
+        if len(re.findall(r"add\s+rdi,\s*byte\s+SIZEOF_JSAMPROW", mid)) != 1 or len(re.findall(r"add\s+rsi,\s*byte\s+SIZEOF_JSAMPROW", mid)) != 1:
+            die(fname + ": second h2v1 call does not advance outptr and inptr0 by one row")
+        P("Definition merged_h2v2_call_rows_%s : list Z := [0; 1].   (* output/luma row written by the 1st, 2nd h2v1 call *)" % isa)
     P()
     # every row must have the length of its vector (16 or 32 bytes)
     P("Definition asm_row_inventory : list (Z * Z * Z) :=   (* vector bytes, element bytes, length *)")
